@@ -45,7 +45,8 @@ try:
     dst = os.path.join(VERIF, "seeded", sid)
     os.makedirs(dst, exist_ok=True)
     for f in ("patch.diff", "demo.py", "note.txt"):
-        shutil.copy(os.path.join(src, f), os.path.join(dst, f))
+        if os.path.abspath(os.path.join(src, f)) != os.path.abspath(os.path.join(dst, f)):
+            shutil.copy(os.path.join(src, f), os.path.join(dst, f))
     json.dump(meta, open(os.path.join(dst, "meta.json"), "w"), indent=1)
     print(sid, "confirmed" if meta["confirmed"] else "NOT-CONFIRMED", "detected_by", meta["detected_by"],
           {p: (c["exit"], c["summary"][-90:]) for p, c in meta["checks"].items()})
